@@ -941,13 +941,31 @@ func (e *lockupEnv) exportImportCore(emit bool) bool {
 		dn = parts[0]
 		fmt.Sscan(parts[1], &d)
 		if got := e.accumStr(dn, d); got != v {
+			if e.accWiped[dn] {
+				// the exporting chain's store of this denomination had been cleared by a rebuild of a prefix denomination
+				// (finding F55, reported by C06 as accum:drift:store-cleared-by-rebuild-of-prefix-denom); InitGenesis
+				// rebuilds it from the lock records: the import REPAIRS the running chain's defect
+				o.Count("exportimport.store-cleared-by-rebuild-of-prefix-denom-repaired-by-import")
+				continue
+			}
 			o.Fail("lockup:export-import:accumulation", fmt.Sprintf("denom %s duration>=%d before %s after %s", dn, d, v, got))
 		}
 	}
 	// the whole accumulation store, synthetic denominations included
 	lockupDerivedOracle(e.ctx(), k, skey, preLeaves, func(cls, detail string) {
+		if strings.HasSuffix(cls, ":differs-from-exporting-chain") {
+			// same consequence of F55 seen on the raw store: the imported store equals the sum over the lock records
+			// (checked just before), the exporting chain's had been cleared by a rebuild of a prefix denomination
+			for dn := range e.accWiped {
+				if strings.HasPrefix(detail, "denom "+dn+":") {
+					o.Count("exportimport.store-cleared-by-rebuild-of-prefix-denom-repaired-by-import:raw-store")
+					return
+				}
+			}
+		}
 		o.Fail("export-import:derived-store-differs:lockup:accumulation:"+cls, detail+e.histStr())
 	}, o.Count)
+	e.accWiped = map[string]bool{} // InitGenesis rebuilt every accumulation store
 	// ... and against the engine's own shadow of the live synthetic locks (shares nothing with the keeper's records)
 	if e.synth != nil {
 		pts := e.accumPoints()
